@@ -84,6 +84,9 @@ def run(ctx):
     from .c03 import rule_self_closing_ns
     rule_self_closing_ns(ctx, mir, rid="R16.8")
 
+    # ------------------------------------------------------------------ R16.9 (generic, scoped to this property's anchors)
+    sm.rule_named_plumbing(ctx, mir, "C16", "R16.9", floor=70)
+
     ctx.not_decided += ["exact range arithmetic of finish_attr_value (closing-quote offsets) at run time", "decoding of values (encoding_rs)"]
     return ("Typestate of the attribute-building actions over every path of the %d-state automaton, the lookup/edit discipline of Attributes, "
             "the getter-to-decoder mapping, where the reported namespace is read relative to tree-builder feedback, and a lint for byte-wise "
